@@ -117,12 +117,16 @@ def write_inputs(scn, d, seed):
             torch.save(torch.from_numpy(x), p)
         lines.append("%s %s" % (uid, p))
     open(os.path.join(d, "map"), "w").write("\n".join(lines) + "\n")
+    if scn.get("post"):
+        # a statistics file that holds no statistics yet (count 0): the documented meaning is "standardise every utterance by itself"
+        np.save(os.path.join(d, "empty_stats.npy"), np.zeros((2, scn["cfg"]["bank"]["num_filts"] + 1)))
 
 
 def tool_args(scn, d, work, workers=0):
     return [os.path.join(d, "map"), json.dumps(scn["cfg"]), os.path.join(work, "out"), "--seed", str(scn["seed_opt"]), "--preprocess", json.dumps(scn["pre"]),
             "--manifest", os.path.join(work, "man.txt"), "--num-workers", str(workers)] + (
-        ["--file-prefix", scn["prefix"]] if scn.get("prefix") else []) + (["--file-suffix", scn["suffix"]] if scn.get("suffix") else [])
+        ["--file-prefix", scn["prefix"]] if scn.get("prefix") else []) + (["--file-suffix", scn["suffix"]] if scn.get("suffix") else []) + (
+        ["--postprocess", json.dumps(scn["post"]).replace("@EMPTYSTATS@", os.path.join(d, "empty_stats.npy"))] if scn.get("post") else [])
 
 
 def run_tool(scn, d, work, K=0, sig="NONE", workers=0, strace=None, timeout=300):
@@ -305,7 +309,8 @@ def golden(scn, d, base):
     gold = {uid_of(scn, fn): t for fn, t in files.items()}
     ev, _ = events(work)
     if sorted(gold) != sorted(scn["ids"]) or any(t is None for t in gold.values()) or raw.split() != scn["ids"]:
-        return None, None, "golden run incomplete: files %r manifest %r" % (sorted(gold), raw.split())
+        # the run was not interrupted and reported success: every utterance is complete, and the manifest lists every one of them
+        return None, None, "VIOLATION an uninterrupted run that exited 0 left files %r and manifest %r for utterances %r" % (sorted(gold), raw.split(), scn["ids"])
     return gold, ev, None
 
 
@@ -326,7 +331,11 @@ def run_case(case, rec):
         write_inputs(scn, d, case["seed"])
         gold, gev, err = golden(scn, d, base)
         if gold is None:
-            rec.inconc(err)
+            if err.startswith("VIOLATION "):
+                rec.ev()
+                rec.violation(dict(what=err[len("VIOLATION "):], case={"scn": {k: v for k, v in scn.items() if k != "lens"}, "seed": case["seed"]}, check="I0_uninterrupted"))
+            else:
+                rec.inconc(err)
             return
         n = len(gev)
         chk = Checker(rec, case, scn, gold)
@@ -508,6 +517,19 @@ def plan(tier, seed):
         ks = sorted({max(1, n // 3), max(1, n // 2), max(1, 2 * n // 3), max(1, n - 2)}) if q else list(range(1, n + 1, 2))
         faults = [{"mech": "stmt", "K": K, "sig": "SIGKILL", "tag": "sik%d" % K} for K in ks]
         faults.append({"mech": "workers", "counts": [2] if q else [1, 2, 3], "tag": "siworkers"})
+        per = 6 if q else 10
+        for g in range(0, len(faults), per):
+            specs.append({"cases": [{"scn": scn, "seed": seed, "faults": faults[g:g + per]}], "timeout": 3000})
+    # a post-processor object that lives as long as its process does: Standardize given a statistics file without statistics (each utterance
+    # is standardised by itself); which utterances share a process depends on the kill point and on --num-workers
+    scn = dict(make_scenario(seed, 101, 4), post=[{"name": "standardize", "rfilename": "@EMPTYSTATS@"}])
+    rc, wc, n = write_counts(scn, seed)
+    if rc != 0 or not n:
+        specs.append({"cases": [{"scn": scn, "seed": seed, "faults": "count"}], "note": "probe run failed rc=%r" % (rc,)})
+    else:
+        ks = sorted({max(1, n // 2), max(1, 2 * n // 3)}) if q else list(range(2, n + 1, 3))
+        faults = [{"mech": "stmt", "K": K, "sig": "SIGKILL", "tag": "postk%d" % K} for K in ks]
+        faults.append({"mech": "workers", "counts": [2] if q else [1, 2, 3], "tag": "postworkers"})
         per = 6 if q else 10
         for g in range(0, len(faults), per):
             specs.append({"cases": [{"scn": scn, "seed": seed, "faults": faults[g:g + per]}], "timeout": 3000})
